@@ -85,8 +85,8 @@ CLAIMED = {
         technique="machine-checked proof in Coq (induction over writer sessions and block arithmetic; codec round trips) + checked model-code correspondence on crash images",
     ),
     "C15": dict(
-        text="Coq theorems on the byte-exact log model with the real CRC32C: changing any single checksum-protected byte (the 4 checksum bytes or the payload of any fragment) of a log whose last block contains the change is detected: the reader returns the original records in order minus at most (exactly, for well-formed fragment sequences) one, invents and alters nothing and does not panic; crc32c itself is proved to detect every single-byte change; batch-level corollary through WAL recovery. Tied to the code by corrupting every offset of every persistent file (WAL, manifest, CURRENT, tables) of small real databases and judging the reopened database against the written history.",
-        note="Partial: table blocks and the manifest are covered by the correspondence only (block checksum verification is not yet a theorem). Three recorded known findings (table-block-error-swallowed-by-iterators, log-length-beyond-eof, log-type-byte-not-checksummed) and the model witness for the mis-framing after a checksum failure in a non-final block (loses more than one record, still invents nothing).",
+        text="Coq theorems on the byte-exact log model with the real CRC32C: changing any single checksum-protected byte (the 4 checksum bytes or the payload of any fragment) of a log whose last block contains the change is detected: the reader returns the original records in order minus at most (exactly, for well-formed fragment sequences) one, invents and alters nothing and does not panic; crc32c itself is proved to detect every single-byte change; batch-level corollary through WAL recovery. Tied to the code by corrupting every offset of every persistent file (WAL, manifest, CURRENT, tables) of small real databases and judging the reopened database against the written history, also after a forced compaction; by comparing the extracted recovery function with DB::open on every single-byte corruption of CURRENT, manifests and logs; and by the table-file layout correspondence.",
+        note="Table files: every stored block (payload, compression type, checksum) reads back at its handle and any single changed byte of it is rejected with a checksum error; handle and footer round trips; a changed magic number is rejected (TableFile.v, tied by the tfile suite on files written by the real builder); the block contents above that layer (Snappy frames) stay opaque. The manifest and CURRENT are covered by the byte-exact recovery model compared with DB::open on every single-byte corruption (recoverc). Three recorded known findings (table-block-error-swallowed-by-iterators, log-length-beyond-eof, log-type-byte-not-checksummed) and the model witness for the mis-framing after a checksum failure in a non-final block (loses more than one record, still invents nothing).",
         design="6 / C15",
         technique="machine-checked proof in Coq (GF(2)-linearity of CRC32C, layout induction) + checked model-code correspondence on corrupted files",
     ),
